@@ -186,3 +186,101 @@ prop('C11', 'thread churn is safe and bounded',
      'the thread\'s handle is attached whenever library code runs, also on the TLS-destroyed path (NODE-SOME); the list '
      'is prepend-only with next written once before publication (NEXT-ONCE).',
      'The numeric bound (at most peak-threads nodes) and exclusivity of a node under all interleavings are NOT decided; the rules are the code-shape reasons for both.')
+
+from . import api as A
+from . import kinds as K
+
+_ORD_SEQ = {'cell-rmw', 'cell-confirm-load', 'debt-fast-publish', 'control-intent', 'control-confirm', 'head-traverse-load', 'head-publish'}
+
+
+def _ord_seq(fx, col):
+    O.rule_ord_with_floors(fx, col, only_roles=_ORD_SEQ)
+
+
+def _inc_protected(fx, col):
+    sub = Collector(col.cfg)
+    L.rule_ledger(fx, sub)
+    col.obs.extend(o for o in sub.obs if o.rule == 'INC-PROTECTED')
+    col.ok('INC-PROTECTED', 'scan', 'no RefCnt::inc on a pointer whose debt was already returned (ledger functions: %d)' % len(L.ledger_functions(fx)))
+
+
+PROPERTIES['C01']['run'] = _run([R.rule_publish_confirm, R.rule_intent_first, R.rule_pay_before_release, R.rule_cover_all,
+                                 P.rule_never_freed, R.rule_claim_empty, _ord_c01, _inc_protected])
+PROPERTIES['C02']['run'] = _run([L.rule_ledger, L.rule_bypass, R.rule_pay_used, O.rule_pay_cas, R.rule_slot_closed, R.rule_cover_all])
+
+prop('C03', 'loads are linearizable (provenance clause)',
+     [R.rule_publish_confirm, R.rule_intent_first, I.rule_addr_guard, I.rule_own_storage, R.rule_pay_before_release, A.rule_no_stash, _ord_seq],
+     'Decides the clause "what a load returns was read from THIS cell INSIDE the call, after the reader made itself visible, '
+     'or was produced for it by a helper that validated cell and transaction": provenance of the pointer in every returned '
+     'protection (PUBLISH-CONFIRM, INTENT-FIRST), helper validation (ADDR-GUARD, GEN-REVALIDATE, OWN-STORAGE), the helper\'s '
+     'value is loaded after the writer\'s own RMW (PAY-BEFORE-RELEASE dominance), nothing thread-local or static remembers a '
+     'loaded pointer outside the debt slots (NO-STASH), and the SeqCst rows of ORD.',
+     'Linearizability, real-time order and per-thread monotonicity over histories are NOT decided (properties of executions).')
+
+prop('C04', 'writes totally ordered, each old value handed back once',
+     [O.rule_rmw_only, A.rule_store_is_swap, L.rule_ledger, L.rule_bypass, R.rule_pay_before_release],
+     'Decides: the container is exactly one atomic variable and every mutation is a single RMW on it, so the write order is '
+     'that variable\'s modification order (RMW-ONLY); store = drop(swap) (STORE-IS-SWAP); one count leaves the cell per '
+     'successful write and per destruction on every path (LEDGER for swap / compare_and_swap / into_inner / Drop), into_inner '
+     'forgets the container so Drop cannot hand the count out twice (BYPASS); the returned handle is released from debts '
+     'before it is given out (PAY-BEFORE-RELEASE).',
+     'Nothing about histories (given RMW-ONLY the order is the hardware coherence order of the one AtomicPtr: trusted).')
+
+prop('C05', 'compare_and_swap replaces iff the stored pointer equals current',
+     [A.rule_cas_shape, A.rule_asraw_siblings, L.rule_ledger, R.rule_pay_before_release, K.rule_refcnt_siblings, A.rule_lock_span],
+     'Decides: per iteration a fresh load; the verdict is pointer equality of the loaded value and `current`; the exchange '
+     'expects `current` and installs `new`; every returned protection is the one the verdict was taken on; `new` is forgotten '
+     'only on success; `current` stays alive across the loop (CAS-SHAPE); counts balance on both outcomes of both strategy '
+     'implementations (LEDGER); all five accepted forms of `current` are the same function of the pointer (ASRAW-SIBLINGS); '
+     'null symmetry of the pointer kinds for the None / null form (REFCNT-SIBLINGS).',
+     'A-B-A and competing-writer behaviour under interleavings (given by the hardware CAS on the one cell).')
+
+prop('C06', 'rcu is an atomic read-modify-write',
+     [A.rule_rcu_shape, A.rule_cas_shape, L.rule_ledger],
+     'Decides RCU-SHAPE: the value passed to f and the `current` of the exchange are the same guard; f\'s result can reach '
+     'nothing but the `new` argument (so a discarded attempt is released by the failure path of compare_and_swap and never '
+     'visible); retry only on reported interference and with the freshly returned value; the result is the replaced value; '
+     'plus CAS-SHAPE and LEDGER of the exchange it builds on.',
+     'The composition law numerically (k increments add k) is a consequence of the shape plus C05, not separately computed.')
+
+prop('C14', 'all strategies implement one sequential specification (structural clause)',
+     [A.rule_api_agnostic, A.rule_lock_span, L.rule_ledger, R.rule_intent_first, R.rule_publish_confirm],
+     'Decides only the structural clause: the public layer cannot distinguish strategies (API-AGNOSTIC), USE_FAST is read only '
+     'as the attempt/fallback selector, Protected for T is the identity, the lock-based reference strategy holds its lock '
+     'across read+inc / exchange (LOCK-SPAN), the count ledger of load / wait_for_readers / compare_and_swap is balanced for '
+     'HybridStrategy and RwLock<()> alike (LEDGER), and each load returns the value of the cell (provenance).',
+     'Equality of returned identities for all single-threaded programs is a functional-equivalence statement this family cannot reach; NOT decided.',
+     configs=['A', 'T'])
+
+prop('C15', 'pointer-kind laws',
+     [K.rule_refcnt_siblings, L.rule_bypass],
+     'Decides REFCNT-SIBLINGS over every `unsafe impl RefCnt`: into_ptr / from_ptr / as_ptr / inc / dec change the count by '
+     '+1 / -1 / 0 / +1 / -1 on every path (0 on the empty-value path), conversions are pure (no clone / upgrade), null '
+     'symmetry across into_ptr / as_ptr / from_ptr (same predicate, same polarity, inner conversion only when non-null), '
+     'Option<T>::Base = T::Base, no upgrade() anywhere in the crate; the as_ptr bracket (BYPASS).',
+     'Numeric strong/weak counts of Arc/Rc/Weak themselves, ZST address distinctness, over-aligned pointees (facts about alloc; trusted).',
+     configs=['D', 'A', 'W'])
+
+prop('C16', 'Cache returns a current-or-newer value and retains at most one old value',
+     [A.rule_cache_shape],
+     'Decides CACHE-SHAPE: one cached field and no interior mutability; Cache::load (and Access for Cache, MapCache::load) '
+     'reach revalidate on every path; the reload is control dependent on the UNEQUAL outcome of comparing the cached pointer '
+     'with a load of the same container\'s cell; only that reload writes the cached value and the old one is dropped there; '
+     'the projection is applied to the reference of this very load; no unsafe in cache.rs.',
+     'Freshness / monotonicity over histories (with the shape fixed they reduce to C03 plus read-read coherence of one atomic).')
+
+prop('C17', 'Access / Map projections',
+     [A.rule_access_shape],
+     'Decides DEREF-PURE (no atomic operation and no load reachable from deref of any guard type, on the instantiated graph), '
+     'GUARD-OWNED (MapGuard holds its inner guard by value; Map / AccessConvert / Constant hold no cell or cache), MUST-LOAD '
+     '(every Access / DynAccess impl performs exactly one fresh inner load on every path; DynAccess boxes exactly that guard; '
+     'Constant returns its own value), and that access.rs contains no unsafe.',
+     'Projections supplied by the user.')
+
+prop('C20', 'serde support is transparent',
+     [A.rule_serde_shape, L.rule_ledger],
+     'Decides SERDE-SHAPE: serialize = one load, then T::serialize(&*guard, serializer) with the caller\'s serializer, result '
+     'returned unchanged, no other serde call; deserialize = T::deserialize(d)? moved into Self::from with no clone/load on '
+     'the way (single reference), requiring only S: Default.',
+     'Equality of token streams for all values (with the shape fixed the container\'s stream is the pointee\'s stream by construction).',
+     configs=['A', 'S'])
